@@ -208,8 +208,65 @@ func parse(parser, in string) (o outcome) {
 // ---- oracle ---------------------------------------------------------------------
 
 // verdict of one (parser, input): shape == "" means the property holds.
+// ---- termination watchdog -------------------------------------------------------------------
+//
+// Every call of a parser is registered in a slot while it runs. A watchdog looks at the slots once a second: a call
+// that has been running for stallLimit is reported as a violation of the termination clause and the run ends there
+// (the stuck goroutine cannot be stopped). The parsers take microseconds; the limit is a minute.
+
+const stallLimit = 60 * time.Second
+
+type callSlot struct {
+	mu     sync.Mutex
+	parser string
+	in     string
+	since  time.Time
+}
+
+var (
+	callSlots = make([]callSlot, 256)
+	freeSlots = func() chan int {
+		c := make(chan int, 256)
+		for i := 0; i < 256; i++ {
+			c <- i
+		}
+		return c
+	}()
+)
+
+func startWatchdog(r *common.Run) {
+	go func() {
+		for {
+			time.Sleep(time.Second)
+			for i := range callSlots {
+				sl := &callSlots[i]
+				sl.mu.Lock()
+				parser, in, since := sl.parser, sl.in, sl.since
+				sl.mu.Unlock()
+				if parser != "" && time.Since(since) > stallLimit {
+					r.Fail(common.Failure{Check: "parse", Class: classify(parser, in), Shape: "does-not-return", Case: pcase{Parser: parser, Input: vals.Str(in), Bound: boundMax},
+						Detail: fmt.Sprintf("%s parser on %q has not returned after %v (every other call of this run took microseconds)", parser, in, stallLimit)})
+					r.SetCapped()
+					r.Finish()
+				}
+			}
+		}
+	}()
+}
+
 func check(parser, in string) (shape, detail string, accepted bool) {
 	var o outcome
+	slot := <-freeSlots
+	sl := &callSlots[slot]
+	sl.mu.Lock()
+	sl.parser, sl.in, sl.since = parser, in, time.Now()
+	sl.mu.Unlock()
+	defer func() {
+		sl.mu.Lock()
+		sl.parser = ""
+		sl.mu.Unlock()
+		freeSlots <- slot
+	}()
 	if p := vals.Guard(func() { o = parse(parser, in) }); p != nil {
 		return p.Shape(), fmt.Sprintf("%s parser on %q panics: %s", parser, in, p.Msg), false
 	}
@@ -931,10 +988,11 @@ func main() {
 		return ok, sh + ": " + d
 	})
 	r.MaybeReplay()
+	startWatchdog(r)
 	r.Assume("every string is in scope; 'well-formed' = non-nil parts and components that the package's own constructors (NewNodeFromStrings, NewImmutable/NewTemporal, Builder.Build of the same builder) accept")
 	r.Assume("'random strings' of the property are replaced by exhaustive enumeration of all strings up to the stated lengths over delimiter alphabets whose letters include multi-character tokens, plus all single-step mutations of printed forms; longer or differently lettered inputs are not covered")
 	r.Assume("reader: a line is 'malformed' when triple.Parse must reject it; blank lines are skipped; with duplicate lines the reported count may be lines read or distinct triples (both accepted)")
-	r.Assume("termination is observed as return of the call; no timeout oracle is used (all parsers are loop-free over the input except strings/regexp/strconv library calls)")
+	r.Assume("termination: a call that has not returned after 60 s (the others take microseconds) is reported as not terminating and ends the run; no shorter wall-clock oracle is used")
 	st := &stats{}
 	passStrings(r, st)
 	passComponents(r, st)
